@@ -532,7 +532,9 @@ func validate(c Case) error {
 			bytesW = 1
 		}
 		switch op.API {
-		case "WriteOperand", "ReadOperand":
+		case "ReadOperand":
+			// a value read of an operand wider than 64 bits returns its first two registers
+		case "WriteOperand":
 			if n > 2 {
 				return fmt.Errorf("op %d: %s moves at most 64 bits", i, op.API)
 			}
@@ -1226,6 +1228,10 @@ func genOp(t *rapid.T, wfs []WfCfg, pools []pool) Op {
 		bytesW = 1
 	}
 	useBytes := n > 2 || rapid.Bool().Draw(t, "bytes")
+	if n > 2 && !write && rapid.IntRange(0, 3).Draw(t, "widevalue") == 0 {
+		// value read of a wide operand: no ALU does it, but both stores answer (the first 64 bits)
+		useBytes = false
+	}
 	switch {
 	case write && useBytes:
 		op.API = "WriteOperandBytes"
